@@ -604,7 +604,11 @@ func (w *World) settle() bool {
 			nextGC = waited + 10*time.Millisecond
 		}
 		if time.Now().After(deadline) {
-			if !w.Strict {
+			// fewer nodes than the model pins: versions that are live or visible to an open snapshot were
+			// removed. That is wrong under every property using this engine (it breaks isolation and the
+			// next reader touches reclaimed nodes); more nodes than expected only matters where collection
+			// progress itself is judged.
+			if !w.Strict && d.NodeCount >= want {
 				if w.st != nil {
 					w.st.Exclude("inconclusive:collection-did-not-settle")
 				}
